@@ -19,7 +19,11 @@ Thrs  == {"t0", "t1", "tsmall", "t32k"}
 Disks == {"Disk", "JSONDisk"}
 \* "...-unpickled": the value is fetched through a handle that went through pickle (another process, copy)
 Accessors == {"get", "getitem", "pop", "read", "pull", "peek", "peekitem", "deque-getitem", "deque-pop", "index-getitem", "index-pop",
-              "get-unpickled", "pull-unpickled"}
+              "get-unpickled", "pull-unpickled",
+              \* arithmetic on a stored integer: the sum stays inside / leaves the signed 64-bit range of an SQLite INTEGER
+              "incr-within", "incr-across", "decr-across"}
+IncrAcc == {"incr-within", "incr-across", "decr-across"}
+Applies(v, a) == a \in IncrAcc => v.kind = "int64"
 
 Sized(k) == k \in {"str", "bytes", "container", "stream"}
 \* is the serialized form at least as long as the threshold?
@@ -45,7 +49,10 @@ JsonFaithful(v) == v.kind \in {"int64", "bigint", "float", "negzero", "inf", "na
 
 Outcome(v, c, acc) ==
     LET r == Store(v, c) IN
-    IF c.disk = "JSONDisk" /\ v.kind \in {"bytes"} THEN "rejected"          \* json.dumps(bytes) raises TypeError
+    \* incr / decr: the exact sum is stored and returned, or (the sum is no SQLite INTEGER, the stored form is no
+    \* number) the call raises and the stored integer stays as it was - never a float, never a wrapped number
+    IF acc \in IncrAcc THEN (IF c.disk = "Disk" /\ acc = "incr-within" THEN "same" ELSE "rejected")
+    ELSE IF c.disk = "JSONDisk" /\ v.kind \in {"bytes"} THEN "rejected"          \* json.dumps(bytes) raises TypeError
     ELSE IF r.mode = "json" THEN (IF JsonFaithful(v) THEN "same" ELSE "rejected")
     ELSE IF r.mode \in {"raw", "text"} /\ v.kind = "str" /\ ~Utf8Encodable(v) THEN "rejected"   \* SQLite TEXT / UTF-8 file
     ELSE IF r.mode = "text" THEN "same"                                      \* read back with newline='' : verbatim
@@ -55,10 +62,12 @@ Values == [kind : Kinds, len : Lens, feat : SUBSET Feats]
 Cases == {v \in Values : (v.kind # "str" => v.feat = {}) /\ (~Sized(v.kind) => v.len = "zero")}
 Configs == [thr : Thrs, disk : Disks]
 
-RoundTripOrReject == \A v \in Cases, c \in Configs, a \in Accessors : Outcome(v, c, a) \in {"same", "rejected"}
+RoundTripOrReject == \A v \in Cases, c \in Configs, a \in Accessors : Applies(v, a) => Outcome(v, c, a) \in {"same", "rejected"}
 \* a value is rejected only for a reason the documentation gives
 RejectOnlyUnstorable == \A v \in Cases, c \in Configs, a \in Accessors :
-    Outcome(v, c, a) = "rejected" => ("surrogate" \in v.feat \/ (c.disk = "JSONDisk" /\ v.kind \in {"bytes", "stream"}))
+    (Applies(v, a) /\ Outcome(v, c, a) = "rejected") =>
+        ("surrogate" \in v.feat \/ (c.disk = "JSONDisk" /\ v.kind \in {"bytes", "stream"}) \/
+         a \in {"incr-across", "decr-across"} \/ (c.disk = "JSONDisk" /\ a \in IncrAcc))
 
 VARIABLE x
 Init == x = 0
